@@ -77,7 +77,7 @@ CHECKS["C20"] = dict(
     assumptions=["the v2/v3 character-level mutations run only in the child worker; in-process v2/v3 strings are truncations / suffix changes"],
     legs=[
         dict(name="license", test="^TestLicenseRoundtrip$", quick=dict(n=3000, procs=1, timeout=300), thorough=dict(n=200000, procs=2, timeout=1800)),
-        dict(name="generated", test="^TestGeneratedLicenses$", kind="plain", quick=dict(n=300, procs=1, timeout=300), thorough=dict(n=30000, procs=2, timeout=1800)),
+        dict(name="generated", test="^TestGeneratedLicenses$", kind="plain", quick=dict(n=300, procs=1, timeout=300), thorough=dict(n=4000, procs=4, timeout=1800)),
         dict(name="key", test="^TestKeyRoundtrip$", quick=dict(n=20000, procs=2, timeout=300), thorough=dict(n=5000000, procs=6, timeout=3000)),
         dict(name="collisions", test="^TestNoCollisions$", kind="plain", quick=dict(n=20000, procs=1, timeout=300), thorough=dict(n=300000, procs=2, timeout=1800)),
         dict(name="concurrent", test="^TestConcurrentCipher$", kind="plain", quick=dict(n=20000, procs=1, timeout=300), thorough=dict(n=400000, procs=1, timeout=1800)),
@@ -138,7 +138,7 @@ CHECKS["C17"] = dict(
     legs=[dict(name="sniffer", test="^TestSniffer$", quick=dict(n=6000, procs=2, timeout=300), thorough=dict(n=3000000, procs=8, timeout=3000)),
           dict(name="writes", test="^TestWrites$", quick=dict(n=1500, procs=4, timeout=400), thorough=dict(n=60000, procs=14, timeout=2400)),
           dict(name="concurrent-writes", test="^TestConcurrentWrites$", quick=dict(n=300, procs=2, timeout=300), thorough=dict(n=30000, procs=6, timeout=2400)),
-          dict(name="real-listener", test="^TestRealListener$", quick=dict(n=600, procs=2, timeout=400), thorough=dict(n=60000, procs=6, timeout=2400)),
+          dict(name="real-listener", test="^TestRealListener$", quick=dict(n=600, procs=2, timeout=400), thorough=dict(n=12000, procs=8, timeout=2400)),
           dict(name="websocket", test="^TestWebsocket$", quick=dict(n=4000, procs=2, timeout=300), thorough=dict(n=2000000, procs=8, timeout=3000)),
           dict(name="websocket-real", test="^TestRealWebsocket$", quick=dict(n=300, procs=2, timeout=300), thorough=dict(n=20000, procs=6, timeout=2400))],
 )
@@ -240,7 +240,7 @@ CHECKS["C19"] = dict(
     rule="rapid cases + stress rounds; non-trivial = frame of >=2 messages or a large payload/ttl, >=2 time steps, a frame that splits into >=2 chunks, a peer round with "
          ">=2 concurrent senders; distinct = distinct case value.",
     legs=[dict(name="codec", test="^TestCodec$", quick=dict(n=6000, procs=2, timeout=300), thorough=dict(n=1500000, procs=8, timeout=3000)),
-          dict(name="codec-concurrent", test="^TestCodecConcurrent$", kind="plain", quick=dict(n=10, procs=1, timeout=300), thorough=dict(n=400, procs=2, timeout=1200)),
+          dict(name="codec-concurrent", test="^TestCodecConcurrent$", kind="plain", quick=dict(n=10, procs=1, timeout=300), thorough=dict(n=80, procs=2, timeout=1200)),
           dict(name="ids", test="^TestIDs$", quick=dict(n=10000, procs=1, timeout=300), thorough=dict(n=3000000, procs=4, timeout=3000)),
           dict(name="ids-concurrent", test="^TestIDsDistinctConcurrent$", kind="plain", quick=dict(n=3, procs=1, timeout=300), thorough=dict(n=60, procs=2, timeout=1200)),
           dict(name="split", test="^TestSplit$", quick=dict(n=20000, procs=1, timeout=300), thorough=dict(n=4000000, procs=4, timeout=3000)),
@@ -317,7 +317,7 @@ CHECKS["C14"] = dict(
                "acknowledgement (process death only, no power-loss model).",
     rule="rapid-generated histories; non-trivial = a use of a key that has been toggled at least twice, or a restart after a toggle; distinct = distinct case value.",
     legs=[dict(name="ban", test="^TestBan$", quick=dict(n=200, procs=4, batch=30, timeout=400), thorough=dict(n=12000, procs=14, batch=60, timeout=1200)),
-          dict(name="in-use", test="^TestBanWhileKeyInUse$", kind="plain", quick=dict(n=2, procs=2, timeout=400), thorough=dict(n=80, procs=4, batch=10, timeout=1800)),
+          dict(name="in-use", test="^TestBanWhileKeyInUse$", kind="plain", quick=dict(n=2, procs=2, timeout=400), thorough=dict(n=40, procs=4, batch=10, timeout=1800)),
           dict(name="kill", test="^TestBanSurvivesKill$", quick=dict(n=12, procs=4, timeout=400), thorough=dict(n=600, procs=10, timeout=2400))],
 )
 
